@@ -26,6 +26,14 @@ func (e *kvElection) validationLoop(ctx context.Context) {
 	consecutiveFailures := 0
 	maxFailures := 2
 
+	// A store that answers within half a heartbeat interval is healthy (the
+	// heartbeat itself allows that long): the validation read must not give up
+	// earlier, or two slow-but-healthy reads in a row demote the leader.
+	validationTimeout := defaultValidationTimeout
+	if half := e.cfg.HeartbeatInterval / 2; half > validationTimeout {
+		validationTimeout = half
+	}
+
 	for {
 		select {
 		case <-ctx.Done():
@@ -38,7 +46,7 @@ func (e *kvElection) validationLoop(ctx context.Context) {
 				return
 			}
 
-			validationCtx, cancel := context.WithTimeout(ctx, defaultValidationTimeout)
+			validationCtx, cancel := context.WithTimeout(ctx, validationTimeout)
 			isValid, err := e.validateToken(validationCtx)
 			cancel()
 
